@@ -49,6 +49,53 @@ def twin_cases(rnd, family, T):
     return out
 
 
+def word_cases(rnd, family, T):
+    """buffers of 72..700 bits whose content has all-zero 8-byte words at 8-byte offsets, followed by a byte whose top bits are set (word-wise
+    loops that skip zero words), and contents of 64 KiB and more whose first bits are zero (big-integer round trips that lose leading zero bytes)"""
+    out = []
+    for _ in range(300 if T else 50):
+        nb = rnd.choice([9, 12, 16, 17, 24, 33, 64, 80])
+        byts = [rnd.randrange(256) for _ in range(nb)]
+        for w in rnd.sample(range(0, nb // 8), max(1, nb // 16)):
+            byts[8 * w:8 * w + 8] = [0] * 8
+            if 8 * w + 8 < nb:
+                byts[8 * w + 8] |= rnd.choice([0x80, 0xC0, 0xFF])
+        pl = rnd.choice([0, 1, 3, 5, 7])
+        bits = ''.join(format(x, '08b') for x in byts)[pl:]
+        for sd in SIDES:
+            a = (bits, sd)
+            if family == 'C06':
+                for k in (-1, -3, -7, -9, 1, 5):
+                    out.append(('shift', [a], (k, 0)))
+                out.append(('xor', [a, (randbits(rnd, len(bits)), 'L' if sd == 'R' else 'R')], ()))
+                out.append(('value', [a], ()))
+            elif family == 'C13':
+                out.append(('eq', [a, (bits, 'L' if sd == 'R' else 'R')], ()))
+                out.append(('hash', [a, (bits, 'L' if sd == 'R' else 'R')], ()))
+            else:
+                out.append(('pad', [a], ('L' if sd == 'R' else 'R', 0)))
+                out.append(('add', [a, (randbits(rnd, 3), rnd.choice(SIDES))], ()))
+    return out
+
+
+def big_oracle_cases(rnd, family, T):
+    """contents of 64 KiB and more whose first bits are zero (big-integer round trips that lose leading zero bytes): judged by the oracle on
+    the implementation only -- the extracted model needs minutes on operands of this size"""
+    out = []
+    if family in ('C13', 'C06', 'C16'):
+        for n in ([524291, 524293, 600001] if T else [524293]):
+            bits = ('0' * rnd.choice([1, 7, 9]) + randbits(rnd, n))[:n]
+            for sd in SIDES:
+                other = 'L' if sd == 'R' else 'R'
+                if family in ('C13', 'C16'):
+                    out.append(('eq', [(bits, sd), (bits, other)], ()))
+                    out.append(('hash', [(bits, sd), (bits, other)], ()))
+                if family in ('C06', 'C16'):
+                    out.append(('shift', [(bits, sd)], (rnd.choice([3, 5]), 0)))
+                    out.append(('pad', [(bits, sd)], (other, 0)))
+    return out
+
+
 def huge_cases(rnd, family, T):
     """operands and amounts beyond 16384 / 32768 / 65536 bits (2, 4, 8 KiB of content): blocks, tables and constants of a fixed size that an
     implementation may use internally are exceeded here; either padding side, lengths that are not byte multiples, operands of opposite sides"""
@@ -194,6 +241,7 @@ def gen_c05(rnd, tier):
                     s = rnd.randint(0, n)
                     cases.append(('getitem', [(c, sd)], (s, rnd.randint(s, n))))
     cases += huge_cases(rnd, 'C05', tier != 'quick')
+    cases += word_cases(rnd, 'C05', tier != 'quick')
     return cases
 
 
@@ -258,6 +306,7 @@ def gen_c06(rnd, tier):
                     cases.append(('invert', [a], ()))
                     cases.append(('shift', [a], (rnd.randint(-10, n + 2), 0)))
     cases += huge_cases(rnd, 'C06', tier != 'quick')
+    cases += word_cases(rnd, 'C06', tier != 'quick')
     cases += twin_cases(rnd, 'C06', tier != 'quick')
     return cases
 
@@ -318,6 +367,7 @@ def gen_c13(rnd, tier):
             cases.append(('eqbytes', [a], (bytes([content[0] ^ 1]) + content[1:] if content else b'\x00',)))
             cases.append(('hashkey', [a], (content,)))
     cases += huge_cases(rnd, 'C13', tier != 'quick')
+    cases += word_cases(rnd, 'C13', tier != 'quick')
     cases += twin_cases(rnd, 'C13', tier != 'quick')
     return cases
 
